@@ -498,6 +498,17 @@ example : encPasswordModify ⟨some [0x61], none, some [0x62]⟩ =
 example : encEndTxn ⟨[0x74, 0x78], false⟩ =
     ⟨some Codecs.Spec.rfcTxnEnd, some [0x30, 0x07, 0x01, 0x01, 0x00, 0x04, 0x02, 0x74, 0x78]⟩ := by decide
 
+/-- the hypotheses of `C19_assertion_req_parsed` / `C19_matchedValues_req_parsed` are met: `(&(a=b)(c=*))`
+is accepted, 13 octets long, nests 2 deep, and the Assertion control carries its BER; `((a=b)(c=*))` is an
+accepted matched-values filter; `(a=` is rejected by both parsers (the constructors panic) -/
+example : (Filter.parse [0x28, 0x26, 0x28, 0x61, 0x3D, 0x62, 0x29, 0x28, 0x63, 0x3D, 0x2A, 0x29, 0x29]).isSome = true ∧
+    Filter.nest 0 [0x28, 0x26, 0x28, 0x61, 0x3D, 0x62, 0x29, 0x28, 0x63, 0x3D, 0x2A, 0x29, 0x29] ≤ 62 ∧
+    (match encAssertion ((Filter.parse [0x28, 0x26, 0x28, 0x61, 0x3D, 0x62, 0x29, 0x28, 0x63, 0x3D, 0x2A, 0x29,
+        0x29]).map Tag.toTlv) with | .ok rc => rc.val | _ => none) =
+      some [0xA0, 0x0B, 0xA3, 0x06, 0x04, 0x01, 0x61, 0x04, 0x01, 0x62, 0x87, 0x01, 0x63] ∧
+    (Filter.parseMatchedValues [0x28, 0x28, 0x61, 0x3D, 0x62, 0x29, 0x28, 0x63, 0x3D, 0x2A, 0x29, 0x29]).isSome = true ∧
+    Filter.parse [0x28, 0x61, 0x3D] = none ∧ Filter.parseMatchedValues [0x28, 0x61, 0x3D] = none := by decide
+
 /-- a two-control list through build_tag / parse_controls: critical paged results + ManageDsaIT -/
 example : (∀ c ∈ [(⟨Codecs.Spec.rfcPagedResults, true, some [0x30, 0x05, 0x02, 0x01, 0x05, 0x04, 0x00]⟩ : RawControl),
       ⟨Codecs.Spec.rfcManageDsaIt, false, none⟩], utf8Valid c.ctype = true) ∧
